@@ -10,8 +10,37 @@ from typing import Any, TypeVar
 
 from hypergraph.nodes._rename import RenameEntry, RenameError, get_next_batch_id
 
+
+
+class _EmitSentinel:
+    """Type of the emit sentinel: a singleton that survives pickling and copying.
+
+    The sentinel is recognised by identity (``value is _EMIT_SENTINEL``). A plain
+    ``object()`` loses that identity when it is pickled, e.g. by a disk cache,
+    so a cached emit output came back as an ordinary value and leaked into results.
+    """
+
+    __slots__ = ()
+
+    def __reduce__(self):
+        return (_get_emit_sentinel, ())
+
+    def __copy__(self):
+        return self
+
+    def __deepcopy__(self, memo):
+        return self
+
+    def __repr__(self) -> str:
+        return "<EMIT>"
+
+
+def _get_emit_sentinel() -> "_EmitSentinel":
+    return _EMIT_SENTINEL
+
+
 # Sentinel value auto-produced for emit outputs when a node runs.
-_EMIT_SENTINEL = object()
+_EMIT_SENTINEL = _EmitSentinel()
 
 # TypeVar for self-referential return types (Python 3.10 compatible)
 _T = TypeVar("_T", bound="HyperNode")
